@@ -9,15 +9,33 @@
 (*    fresh2   another fresh object evaluated with ctx2                    *)
 (* and, for kind "arrlen", the number of elements of an array declared     *)
 (* with that length when parsed from bytes giving the context.             *)
-(* The oracle is Meaning() of module ExprGrammar (the C grammar).          *)
+(* The oracle is Meaning() of module ExprGrammar (the C grammar) on        *)
+(* range-guarded integers, and BigMeaning() of module ExprBig - the same   *)
+(* grammar over unbounded integers - for records of kind "evalbig" (limb   *)
+(* values in contexts, constants and results); on every small record both  *)
+(* must agree.                                                             *)
 (***************************************************************************)
-EXTENDS ExprGrammar, TLC, Json, IOUtils
+EXTENDS ExprBig, TLC, Json, IOUtils
 
 Traces == ndJsonDeserialize(IOEnv.TRACE_FILE)
 
 Agrees(o, v) == o.status = "ok" /\ o.v = v
 
+ToBig(m) == [j \in 1..Len(m) |-> <<m[j][1], FromInt(m[j][2])>>]
+BigEnv(ctx, T) == [ctx |-> ToBig(ctx), consts |-> ToBig(T.consts), sizes |-> T.sizes]
+BigClauses(T) ==
+  LET e1 == [ctx |-> T.ctx1, consts |-> T.consts, sizes |-> T.sizes]
+      e2 == [ctx |-> T.ctx2, consts |-> T.consts, sizes |-> T.sizes]
+      b1 == BigMeaning(T.text, e1)
+      b2 == BigMeaning(T.text, e2)
+  IN IF ~b1.wf THEN {"SPECBUG:generated-text-not-wellformed"}
+     ELSE IF ~IsDef(b1.v) \/ ~IsDef(b2.v) THEN {"SKIP:domain"}
+     ELSE (IF Agrees(T.obs.fresh1, b1.v) THEN {} ELSE {"value"})
+          \cup (IF Agrees(T.obs.fresh2, b2.v) THEN {} ELSE {"value"})
+          \cup (IF Agrees(T.obs.second, b2.v) /\ Agrees(T.obs.again1, b1.v) THEN {} ELSE {"repeat"})
+
 Clauses(T) ==
+  IF T.kind = "evalbig" THEN BigClauses(T) ELSE
   LET e1 == [ctx |-> T.ctx1, consts |-> T.consts, sizes |-> T.sizes]
       e2 == [ctx |-> T.ctx2, consts |-> T.consts, sizes |-> T.sizes]
       m1 == Meaning(T.text, e1)
@@ -29,6 +47,9 @@ Clauses(T) ==
      ELSE (IF Agrees(T.obs.fresh1, m1.v) THEN {} ELSE {"value"})
           \cup (IF Agrees(T.obs.fresh2, m2.v) THEN {} ELSE {"value"})
           \cup (IF Agrees(T.obs.second, m2.v) /\ Agrees(T.obs.again1, m1.v) THEN {} ELSE {"repeat"})
+          \* the two formulations of the grammar's meaning agree wherever the guarded one is defined
+          \cup (IF BigMeaning(T.text, BigEnv(T.ctx1, T)).v = FromInt(m1.v) /\ BigMeaning(T.text, BigEnv(T.ctx2, T)).v = FromInt(m2.v)
+                THEN {} ELSE {"SPECBUG:big-vs-small"})
 
 VARIABLE tid
 Init == tid = 1
